@@ -95,7 +95,9 @@ def check_program(item):
     out += tick_problems(run)
     out += error_entry_problems(run, lines, injected)
     last = run.obs[-1]
-    if run.engine.has_error_state() and last["flags"]["started"] and last["flags"]["paused"]:
+    # (a Restart or Stop that is still in progress at the horizon is not a settled error pause: what a further Stop does then
+    # is C08's business)
+    if run.engine.has_error_state() and last["flags"]["started"] and last["flags"]["paused"] and last["state"] == "Paused":
         stats["error"] = True
         failed = last["mstate"]["failed"]
         stats["failed_line"] = bool(failed)
